@@ -152,7 +152,7 @@ theorem findDescriptor_notFound (c : Ctx) (ref : Str) (h : findDescriptor c ref 
   · split at h <;> cases h
 
 theorem findTyped_ok (c : Ctx) (w : Want) (ref : Str) (t : TargetRef) (h : findTyped c w ref = .ok t) :
-    fullNameOf t = ref := by
+    fullNameOf t = ref ∧ ∃ full, ref = 46 :: full := by
   unfold findTyped at h
   split at h
   · cases h
@@ -161,13 +161,13 @@ theorem findTyped_ok (c : Ctx) (w : Want) (ref : Str) (t : TargetRef) (h : findT
     obtain ⟨full, rfl, hv⟩ := findDescriptor_notFound c ref hnf
     split at h
     · injection h with h; subst h
-      simp [fullNameOf, refFullName, not_unknownPrefix_of_valid full hv]
+      exact ⟨by simp [fullNameOf, refFullName, not_unknownPrefix_of_valid full hv], full, rfl⟩
     · cases h
   · rename_i t' hf
     obtain ⟨full, rfl, hfn, hv, _⟩ := findDescriptor_found c ref t' hf
     split at h
-    · injection h with h; subst h; simp [fullNameOf, hfn, not_unknownPrefix_of_valid full hv]
-    · injection h with h; subst h; simp [fullNameOf, hfn, not_unknownPrefix_of_valid full hv]
+    · injection h with h; subst h; exact ⟨by simp [fullNameOf, hfn, not_unknownPrefix_of_valid full hv], full, rfl⟩
+    · injection h with h; subst h; exact ⟨by simp [fullNameOf, hfn, not_unknownPrefix_of_valid full hv], full, rfl⟩
     · cases h
 
 theorem resolveErr_none_split (c : Ctx) (par : GoFeatures) (scope : Str) (me : Bool) (n i : Nat) (p : FieldP)
@@ -202,8 +202,8 @@ theorem resolveErr_none_split (c : Ctx) (par : GoFeatures) (scope : Str) (me : B
 
 theorem findTarget_ok (c : Ctx) (k : Nat) (ref : Str) (t : Target) (h : findTarget c k ref = .ok t) (hk : k ≠ 0) :
     t.kind = k ∧
-    (if k = kEnum then (∃ r, t.enumT = some r ∧ fullNameOf r = ref) ∧ t.messageT = none
-     else if k = kMessage ∨ k = kGroup then (∃ r, t.messageT = some r ∧ fullNameOf r = ref) ∧ t.enumT = none
+    (if k = kEnum then (∃ r, t.enumT = some r ∧ fullNameOf r = ref) ∧ t.messageT = none ∧ ∃ full, ref = 46 :: full
+     else if k = kMessage ∨ k = kGroup then (∃ r, t.messageT = some r ∧ fullNameOf r = ref) ∧ t.enumT = none ∧ ∃ full, ref = 46 :: full
      else t.enumT = none ∧ t.messageT = none ∧ ref = []) := by
   unfold findTarget at h
   split at h
@@ -213,7 +213,7 @@ theorem findTarget_ok (c : Ctx) (k : Nat) (ref : Str) (t : Target) (h : findTarg
     | error e => simp [hf, Except.map] at h
     | ok r =>
       simp [hf, Except.map] at h; subst h
-      simp [he, findTyped_ok c .enum ref r hf]
+      simp [he, (findTyped_ok c .enum ref r hf).1, (findTyped_ok c .enum ref r hf).2]
   · rename_i hne
     simp only [beq_iff_eq] at hne
     split at h
@@ -223,7 +223,7 @@ theorem findTarget_ok (c : Ctx) (k : Nat) (ref : Str) (t : Target) (h : findTarg
       | error e => simp [hf, Except.map] at h
       | ok r =>
         simp [hf, Except.map] at h; subst h
-        simp [hne, hm, findTyped_ok c .msg ref r hf]
+        simp [hne, hm, (findTyped_ok c .msg ref r hf).1, (findTyped_ok c .msg ref r hf).2]
     · rename_i hnm
       simp only [Bool.or_eq_true, beq_iff_eq, not_or] at hnm
       split at h
